@@ -41,7 +41,8 @@ def main():
 
     # 1. regenerate Gen tables from the tree
     from tools.gen import gen
-    gstat = gen.regenerate(tree)
+    with vlib.build_lock():
+        gstat = gen.regenerate(tree)
     gen_needed = getattr(mod, "GEN", [])
     gen_fail = {k: v["error"] for k, v in gstat.items() if k in gen_needed and not v["ok"]}
     # 2. re-check the proofs
